@@ -214,6 +214,7 @@ class DataArray:
         self.cells = cells            # label tuple -> value (dense)
         self.name = name
         self.attrs = dict(attrs or {})
+        self.nocoord = set()          # dimensions without an explicit coordinate
 
     # -- construction helpers
     @classmethod
@@ -235,7 +236,39 @@ class DataArray:
 
     @property
     def coords(self):
-        return {d: _Coord(d, v) for d, v in self.coords_.items()}
+        return _DACoords(self)
+
+    def _relabel(self, d, new):
+        old = self.coords_[d]
+        if len(new) != len(old):
+            raise ValueError("conflicting sizes for dimension %r: length %d vs %d" % (d, len(new), len(old)))
+        i = self.dims.index(d)
+        m = list(zip(old, new))
+
+        def tr(lab):
+            for o, n in m:
+                if o == lab:
+                    return n
+            raise KeyError(lab)
+
+        self.cells = {k[:i] + (tr(k[i]),) + k[i + 1:]: v for k, v in self.cells.items()}
+        self.coords_[d] = list(new)
+        self.nocoord.discard(d)
+
+    def __getitem__(self, k):
+        if k in self.coords_:
+            if k in self.nocoord:
+                raise KeyError(k)
+            return _Coord(k, self.coords_[k])
+        raise KeyError(k)
+
+    def __setitem__(self, k, v):
+        if isinstance(v, _Coord):
+            v = v.values
+        if k in self.dims:
+            self._relabel(k, list(v.data) if isinstance(v, NestedArray) else list(v))
+        else:
+            raise ValueError("assigning a non-dimension coordinate to a DataArray is not modelled")
 
     @property
     def values(self):
@@ -274,7 +307,9 @@ class DataArray:
     def copy(self, deep=False):
         # xarray's default is a SHALLOW copy: the data buffer is shared
         cells = dict(self.cells) if deep else self.cells
-        return DataArray(self.dims, self.coords_, cells, self.name, self.attrs)
+        out = DataArray(self.dims, self.coords_, cells, self.name, self.attrs)
+        out.nocoord = set(self.nocoord)
+        return out
 
     def set_cell(self, key, value):
         """in-place edit of the data buffer (what `da.values[...] = v` does)"""
@@ -287,6 +322,8 @@ class DataArray:
         ds = Dataset()
         for d in self.dims:
             ds._coords[d] = list(self.coords_[d])
+            if d in self.nocoord:
+                ds._nocoord.add(d)
         ds._vars[name] = self.copy(deep=True)
         ds._vars[name].name = name
         return ds
@@ -351,6 +388,29 @@ class DataArray:
     def identical(self, other):
         return (isinstance(other, DataArray) and self.dims == other.dims and self.coords_ == other.coords_
                 and self.name == other.name and all(_same_value(v, other.cells[k]) for k, v in self.cells.items()))
+
+
+class _DACoords:
+    def __init__(self, da):
+        self.da = da
+
+    def __getitem__(self, k):
+        return self.da[k]
+
+    def __setitem__(self, k, v):
+        self.da[k] = v
+
+    def __contains__(self, k):
+        return k in self.da.coords_ and k not in self.da.nocoord
+
+    def __iter__(self):
+        return iter([d for d in self.da.coords_ if d not in self.da.nocoord])
+
+    def keys(self):
+        return list(iter(self))
+
+    def items(self):
+        return [(d, _Coord(d, self.da.coords_[d])) for d in self]
 
 
 class _Coord:
@@ -581,7 +641,9 @@ class Dataset:
 
     def __getitem__(self, k):
         if k in self._vars:
-            return self._vars[k]
+            da = self._vars[k]
+            da.nocoord = {d for d in da.dims if d in self._nocoord}
+            return da
         if k in self._coords:
             return _Coord(k, self._coords[k])
         raise KeyError(k)
@@ -831,6 +893,10 @@ def open_dataset(file_name, engine=None, chunks=None, **kw):
 def concat(objs, dim, join="outer", **kw):
     """concatenate along a NEW dimension; the other dimensions are aligned with `join`
     ('outer': sorted union of unequal indexes, NaN fill; 'override': positions of the first object)"""
+    all_da = bool(objs) and all(isinstance(o, DataArray) for o in objs)
+    da_name = objs[0].name if all_da else None
+    if all_da:
+        objs = [o.to_dataset(name="__da__") for o in objs]
     objs = [o.to_dataset() if isinstance(o, DataArray) else o for o in objs]
     if not objs:
         raise ValueError("must supply at least one object to concatenate")
@@ -891,6 +957,11 @@ def concat(objs, dim, join="outer", **kw):
         vc = {dim: labels}
         vc.update({d: coords[d] for d in da0.dims})
         out._vars[n] = DataArray((dim,) + da0.dims, vc, cells, n)
+    if all_da:
+        res = out._vars["__da__"]
+        res.name = da_name
+        res.nocoord = {d for d in res.dims if d in out._nocoord}
+        return res
     return out
 
 
